@@ -182,6 +182,12 @@ let run_case (line : string) : string =
     let n = int_of_string a.(2) in
     if Oracles.oracle_mask (nat_of_int (int_of_string a.(1))) (rows_from n (unhex a.(3))) (rows_from n (unhex a.(4))) then "1" else "0"
   | "openalty" -> string_of_n (Penalty.oracle_penalty (rows_from (int_of_string a.(1)) (unhex a.(2))))
+  | "openparts" ->
+    let ((a1, a2), a3) = Penalty.oracle_penalty_parts (rows_from (int_of_string a.(1)) (unhex a.(2))) in
+    Printf.sprintf "%s %s %s" (string_of_n a1) (string_of_n a2) (string_of_n a3)
+  | "openline" -> let (p, r) = Penalty.oracle_line (unhex a.(1)) in Printf.sprintf "%s %s" (string_of_n p) (string_of_n r)
+  | "orsstream" ->
+    if Oracles.oracle_rs_stream (nat_of_int (int_of_string a.(1))) (nat_of_int (int_of_string a.(2))) (unhex a.(3)) (unhex a.(4)) then "1" else "0"
   | "omode" -> string_of_int (int_of_nat (Oracles.oracle_mode (unhex a.(1))))
   | "oec" -> hex (Oracles.oracle_ec (unhex a.(1)) (nat_of_int (int_of_string a.(2))))
   | "ominver" ->
@@ -226,7 +232,7 @@ let run_case (line : string) : string =
       | None, None -> (side, side) in
     Printf.sprintf "OK %d %d 0 0 1" w h
   | "threads" -> Printf.sprintf "OK %d 0" (int_of_string a.(1) * int_of_string a.(2))
-  | "file" -> if a.(2) = "ok" then "RET_OK same=1" else "RET_ERR"
+  | "file" -> if a.(2) = "ok" || a.(2) = "overwrite" then "RET_OK same=1" else "RET_ERR"
   | _ -> Render.run_case a
 
 let () =
